@@ -50,7 +50,15 @@ class Exec(HeapMixin, SpecEvalMixin, ExprMixin, StmtMixin, CallMixin):
         self.merging = True
         self.reset("?")
 
+    def frame_witness(self):
+        """the arbitrary pre-existing object of this function's frame obligation (one constant per verified function, so
+        that call sites can instantiate a callee's universal 'older objects are untouched' clause for exactly this object)"""
+        if getattr(self, "_frame_obj", None) is None:
+            self._frame_obj = self.decls.const("frame_obj$", INT)
+        return self._frame_obj
+
     def reset(self, fname):
+        self._frame_obj = None
         self.decls = Decls()
         self.initial_heap = {}
         self.obligations = []
@@ -313,7 +321,11 @@ class Exec(HeapMixin, SpecEvalMixin, ExprMixin, StmtMixin, CallMixin):
                     names["result"] = self.check_result_kind(fin, o.val, c.returns)
                 if c.ghost_ensures:
                     # ghost effects are definitional (the real code never touches ghost fields): apply them at exit
-                    fin = self.havoc_locations(fin, c.ghost_modifies, SpecEnv(entry, dict(params)))
+                    # (only the ghost locations those definitions talk about; ghost logs kept by callee contracts, which
+                    # are listed in ghost_modifies for the frame only, keep the values the body gave them)
+                    defd = [loc for loc in c.ghost_modifies
+                            if any(loc.split(" if ")[0].rsplit(".", 1)[-1] in gcl.expr for gcl in c.ghost_ensures)]
+                    fin = self.havoc_locations(fin, defd, SpecEnv(entry, dict(params)))
                     for gcl in c.ghost_ensures:
                         fin = fin.assume(self.spec_bool(SpecEnv(fin, names, entry, dict(params)), gcl.expr))
                 self.apply_hints(fin, c.hints, SpecEnv(fin, names, entry, dict(params)))
@@ -352,7 +364,9 @@ class Exec(HeapMixin, SpecEvalMixin, ExprMixin, StmtMixin, CallMixin):
                                   meta={"exception": exc.cls, "origin": exc.origin})
                 gex = [cl for r in allowed for cl in getattr(c, "ghost_ensures_exc", {}).get(r.exc, [])]
                 if gex:
-                    fin = self.havoc_locations(fin, c.ghost_modifies, SpecEnv(entry, dict(params)))
+                    defd = [loc for loc in c.ghost_modifies
+                            if any(loc.split(" if ")[0].rsplit(".", 1)[-1] in gcl.expr for gcl in gex)]
+                    fin = self.havoc_locations(fin, defd, SpecEnv(entry, dict(params)))
                     for gcl in gex:
                         fin = fin.assume(self.spec_bool(SpecEnv(fin, names, entry, dict(params)), gcl.expr))
                 for r in allowed:
@@ -430,7 +444,7 @@ class Exec(HeapMixin, SpecEvalMixin, ExprMixin, StmtMixin, CallMixin):
             if perm is None:
                 continue
             if o is None:
-                o = self.decls.fresh("frame_obj", INT)
+                o = self.frame_witness()
             cond = And(Lt(I(0), o), Lt(o, entry.alloc), *[Ne(o, p) for p in perm])
             goals.append((key, Implies(cond, Eq(select(final, o), select(init, o)))))
         if goals and os.environ.get("VERIF_FRAME_SPLIT"):
